@@ -208,11 +208,33 @@ def work_pretag(bins, seed, n):
                     bad.append(("panic@" + out.split(":")[0], out, case))
                 elif kk == "err":
                     bad.append(("clean-prerelease-tag-refused", "flow refused a clean pre-release tag: %s" % out[:150], case))
-                elif dev is not None and public(fmt, out) == (sem_nodev if fmt == "semver" else pep_nodev):
+                elif dev is not None and preset in (None, "standard", "standard-no-context", "standard-context") and public(fmt, out) == (sem_nodev if fmt == "semver" else pep_nodev):
                     # recorded finding: the clean-at-tag tier of the smart schemas has no dev component
                     bad.append(("clean-prerelease-tag-with-dev-loses-dev", "clean at tag %s printed %r: the dev part is dropped" % (tag, out), case))
                 elif public(fmt, out) != want:
                     bad.append(("clean-prerelease-tag-changed", "clean at tag %s printed %r, expected %r" % (tag, out, want), case))
+        # clause 3 from a pre-release base tag: commits added after it (commit post-mode, the tag's own label and number in force) give strictly greater
+        # versions, each greater than the one before and all greater than the tag
+        if dev is None:
+            for fmt, tagv in (("semver", sem), ("pep440", pep)):
+                prev = (0, tagv)
+                for d in (1, 2, 5, 40):
+                    argv = ["--source", "none", "--tag-version", sem, "--input-format", "semver", "--output-format", fmt, "--distance", str(d), "--post-mode", "commit",
+                            "--pre-release-label", lab, "--pre-release-num", str(num), "--bumped-branch=feature/x", "--schema", "standard"]
+                    kk, out = run_flow(pr, argv)
+                    k += 1
+                    case = dict(kind="pretag", argv=["flow"] + argv)
+                    if kk == "panic":
+                        bad.append(("panic@" + out.split(":")[0], out, case))
+                        break
+                    if kk == "err":
+                        bad.append(("flow-refused", "flow refused commits after the pre-release tag %s: %s" % (sem, out[:150]), case))
+                        break
+                    kv, kp = key(fmt, out), key(fmt, prev[1])
+                    if kv is None or not (kp < kv):
+                        bad.append(("not-increasing-with-distance", "%s: after tag %s, distance %d gives %r and distance %d gives %r" % (fmt, tagv, prev[0], prev[1], d, out), case))
+                        break
+                    prev = (d, out)
     return dict(n=k, bad=bad)
 
 
